@@ -6,18 +6,27 @@ import utf_common as U
 LEVEL = "proof"
 TRUSTED_BASE = P.TRUSTED_BASE
 ASSUMPTIONS = P.ASSUMPTIONS + [
-    "this check covers the writer overloads (every scalar, string, bin/array/map header, timestamp); the typed archive layer that decides WHICH overload and WHICH count is used (classes, base classes, containers) is not modelled yet — partial with respect to the property's 'classes / maps with every key type' clause",
+    "typed level: the value-tree model (coq/MpSaveModel.v) declares the exact number of entries for every array / map / binary, as GetContainerSize and the fields-count visitor do for containers and classes without conditional members; base classes, conditional fields and non-string/integer map keys (float, timestamp) are not in the model (partial for those clauses)",
 ]
 
 
 def run(ctx, vlib):
     impl, model = M.drivers(vlib)
-    cases = U.load_corpus("C06") + P.writer_cases(ctx["rng"], ctx["tier"])
+    cases = [c for c in U.load_corpus("C06") if not c.startswith("sv ")] + P.writer_cases(ctx["rng"], ctx["tier"])
     oi = vlib.run_driver(impl, cases)
     om = vlib.run_driver(model, cases)
-    return P.assess("C06", vlib, cases, oi, om, P.judge_writer,
+    # typed level: value trees saved through the public API (root / array / object / binary write scopes)
+    simpl, _ = M.save_drivers(vlib)
+    tcases, expect = P.tree_cases(ctx["rng"], ctx["tier"])
+    tcases = [c for c in U.load_corpus("C06") if c.startswith("sv ")] + tcases
+    oi += vlib.run_driver(simpl, tcases)
+    om += vlib.run_driver(model, tcases)
+    cases = cases + tcases
+    jt = P.judge_tree(expect)
+    judge = lambda line, out: jt(line, out) if line.startswith("sv ") else P.judge_writer(line, out)
+    return P.assess("C06", vlib, cases, oi, om, judge,
                     nontrivial=lambda line, out: len(out) > 2,
-                    rule="every uint8/int8 value (and every 16-bit value in thorough) through both writers, all format thresholds 2^5..2^64 +-2 for every wider type, length thresholds 0/15/16/31/32/255/256/65535/65536/2^32 (+-1) for str/bin/array/map, random float/double bit patterns incl. NaN/Inf/subnormal, timestamps at 0, +-1, 2^32, 2^34 +-1, int64 limits; string writer and stream writer; non-trivial = distinct case whose encoding is longer than one byte")
+                    rule="every uint8/int8 value (and every 16-bit value in thorough) through both writers, all format thresholds 2^5..2^64 +-2 for every wider type, length thresholds 0/15/16/31/32/255/256/65535/65536/2^32 (+-1) for str/bin/array/map, random float/double bit patterns incl. NaN/Inf/subnormal, timestamps at 0, +-1, 2^32, 2^34 +-1, int64 limits; string writer and stream writer; plus random nested value trees (every C++ integer type, floats, strings, byte containers, sequences, classes with string keys, maps with integer keys, 0/1/15/16/17 entries per level) saved through SaveObject<MsgPackArchive> to memory and stream; non-trivial = distinct case whose encoding is longer than one byte")
 
 
 def replay(rp, vlib):
